@@ -4,6 +4,9 @@ from mc.judges import expect_spec, judge_expect
 from mc.world import Case
 
 
+_OPT = [0]
+
+
 def isa_for(params, base_isa_fn):
     return base_isa_fn(address_size=params.address_size, endian=params.endian, origin=params.origin or None,
                        page_size=params.page_size if params.page_size != 1 else None,
@@ -32,6 +35,20 @@ def run_program(acc, params, isa, files, main='main.asm', incdirs=(), start=0, e
                 finding = fid
                 break
         acc.violation([case], spec, msg, [out], finding=finding, priority=priority)
+    if ref.status == 'REJECT' and not msg:
+        # a program that must be rejected is rejected whatever outputs are requested: every fifth rejected program is run once more
+        # with other output options (nothing written at all / a listing only / an image window), judged on its status
+        _OPT[0] += 1
+        if _OPT[0] % 5 == 0:
+            mode = _OPT[0] // 5 % 3
+            kw = [{'binary': False}, {'binary': False, 'pretty': 'listing'}, {'start': 0x7000}][mode]
+            case2 = Case(isa, R.render_files(files), main=main, incdirs=incdirs, defines=defines, tag=tag, **kw)
+            out2 = acc.run(case2)
+            acc.transition()
+            spec2 = dict(spec, status_only=True, mode=['--no-binary', '--no-binary -p -t listing', '-s 28672'][mode])
+            msg2 = judge_expect(spec2, [out2])
+            if msg2:
+                acc.violation([case2], spec2, f'[{spec2["mode"]}] {msg2}', [out2], priority=priority)
     cl = clause(ref) if callable(clause) else clause
     if cl is None:
         cl = 'accepted' if ref.status == 'OK' else 'rejected'
